@@ -1,5 +1,5 @@
 SPECIFICATION Spec
-CONSTANTS Shards = {s1, s2} NR = 2 MaxBulk = 2 SizeSet = {2} MaxFaults = 1 MaxTries = 3 MaxSearch = 1 MaxInflight = 1
+CONSTANTS Shards = {s1, s2} NR = 2 MaxBulk = 1 SizeSet = {2} MaxFaults = 3 MaxTries = 3 MaxSearch = 1 MaxInflight = 1
   Pages <- PagesBoth Lag = FALSE Seals = TRUE Shuffles = {FALSE} Mut = "none"
 SYMMETRY Sym
 CONSTRAINT StopAfterLastSearch
